@@ -65,7 +65,14 @@ static pt_state_t cmd_ab_fn(console_t *c)
 static const console_cmd_t cmd_a = CONSOLE_CMD_VAR_INIT("a", cmd_a_fn);
 static const console_cmd_t cmd_ab = CONSOLE_CMD_VAR_INIT("ab", cmd_ab_fn);
 static const console_cmd_t cmd_b = CONSOLE_CMD_VAR_INIT("b", cmd_b_fn);
-static const char *cmdname[] = { "a", "ab", "b" };
+/* two names longer than a pointer (8 bytes here, 4 on the 32-bit targets) that share their first 8 and 9 characters:
+ * lookups must compare whole names */
+static pt_state_t cmd_l1_fn(console_t *c) { return capture(c, 3); }
+static pt_state_t cmd_l2_fn(console_t *c) { return capture(c, 4); }
+static const console_cmd_t cmd_l1 = CONSOLE_CMD_VAR_INIT("abababab", cmd_l1_fn);
+static const console_cmd_t cmd_l2 = CONSOLE_CMD_VAR_INIT("ababababa", cmd_l2_fn);
+static const char *cmdname[] = { "a", "ab", "b", "abababab", "ababababa" };
+#define NCMD 5
 
 static const console_cmd_t *pristine_table[32];
 static void table_reset(void) { memcpy(cmd_table, pristine_table, sizeof(cmd_table)); }
@@ -104,11 +111,11 @@ static void reference_tokenize(const char *line, expect_t *e)
 	}
 	if (ntok > 4) e->unspecified = 1;
 	e->argc = ntok > 4 ? 4 : ntok;
-	if (ntok) for (int k = 0; k < 3; k++) if (!strcmp(e->argv[0], cmdname[k])) e->cmd = k;
+	if (ntok) for (int k = 0; k < NCMD; k++) if (!strcmp(e->argv[0], cmdname[k])) e->cmd = k;
 }
 
 /* ------------------------------------------------------------ comparing one completed line */
-static uint64_t n_lines, n_lines_unspecified, n_lines_cmd[4], n_lines_unknown;
+static uint64_t n_lines, n_lines_unspecified, n_lines_cmd[NCMD + 1], n_lines_unknown;
 static vx_set distinct_obs;
 static char failbuf[400];
 /* returns NULL if fine, else a description; `got`/`ngot` are the invocations captured while the line completed */
@@ -427,7 +434,7 @@ int main(int argc, char **argv)
 	uint8_t *area = vx_guard_alloc(sizeof(console_t) + 64, 1);
 	con_canary_lo = area; memset(area, 0xA5, 64); CON = (console_t *)(area + 64); con_canary_hi = area;
 	memcpy(pristine_table, cmd_table, sizeof(cmd_table));
-	table_reset(); console_register(&cmd_a); console_register(&cmd_ab); console_register(&cmd_b);
+	table_reset(); console_register(&cmd_a); console_register(&cmd_ab); console_register(&cmd_b); console_register(&cmd_l2); console_register(&cmd_l1);
 	const console_cmd_t *work_table[32]; memcpy(work_table, cmd_table, sizeof(work_table));
 	(void)dummy;
 
@@ -514,6 +521,14 @@ int main(int argc, char **argv)
 			bad += try_stream(s, n, "long", 15);
 		}
 	}
+	/* names around the long registered commands: exact, one shorter, one longer, differing late */
+	if (vx_mine(17)) {
+		memcpy(cmd_table, work_table, sizeof(work_table));
+		static const char *near[] = { "abababab\n", "ababababa\n", "abababa\n", "ababababb\n", "ababababab\n", "abababab a\n", "ababababa 'b b'\n",
+					      "abababaa\n", "ababababaa b\n", "abababab\nababababa\nababababb\na\n" };
+		int bad = 0;
+		for (unsigned i = 0; i < sizeof(near) / sizeof(near[0]) && bad < 6; i++) bad += try_stream(near[i], (int)strlen(near[i]), "names", 15);
+	}
 	/* scripts: many short lines, total length around the sizes a narrow cursor would wrap at */
 	if (vx_mine(17)) {
 		memcpy(cmd_table, work_table, sizeof(work_table));
@@ -536,6 +551,7 @@ int main(int argc, char **argv)
 	vx_count("streams_delivered_other_than_console_process", n_streams); vx_count("deliveries_putchar", n_deliveries[1]); vx_count("deliveries_eval", n_deliveries[2]);
 	vx_count("lines_compared", n_lines); vx_count("lines_unspecified_by_the_statement", n_lines_unspecified); vx_count("lines_unknown_or_empty", n_lines_unknown);
 	vx_count("lines_cmd_a", n_lines_cmd[0]); vx_count("lines_cmd_ab", n_lines_cmd[1]); vx_count("lines_cmd_b", n_lines_cmd[2]);
+	vx_count("lines_cmd_abababab", n_lines_cmd[3]); vx_count("lines_cmd_ababababa", n_lines_cmd[4]);
 	vx_count("lines_completed_by_a_full_buffer", n_fill_lines);
 	vx_count("registration_cases", n_reg_orders); vx_count("registration_lookups", n_reg_lookups); vx_count("eval_invocations", n_eval_invocations);
 	for (int k = 0; k < NALPHA; k++) { char nm[32]; snprintf(nm, sizeof(nm), "chars_%s", alphaname[k]); vx_count(nm, n_chars[k]); }
